@@ -15,6 +15,11 @@ SIZES = {"quick": 2500, "thorough": 8000}   # thorough = the whole grid
 # large-scale family (world_store.LARGE_BASE + 0..N_LARGE-1): a thousand and
 # more spans per scenario, batch sizes around the default 1000
 N_LARGE = 400
+# combined-fault family (world_store.MIXED_BASE + 0..N_MIXED-1), C09/C11/C12
+N_MIXED = 1000
+SIZES_MIXED = {"quick": {"C09": 60, "C10": 0, "C11": 200, "C12": 60},
+               "thorough": {"C09": N_MIXED, "C10": 0, "C11": N_MIXED,
+                            "C12": N_MIXED}}
 SIZES_LARGE = {"quick": {"C09": 16, "C10": 64, "C11": 24, "C12": 24},
                "thorough": {p: N_LARGE for p in ("C09", "C10", "C11", "C12")}}
 
@@ -201,6 +206,11 @@ def build_units(prop, tier, seed, scale, findings):
     rl = random.Random(core.derive(seed, prop, "large-scenarios"))
     idxs += [ws.LARGE_BASE + i
              for i in sorted(rl.sample(range(N_LARGE), min(nl, N_LARGE)))]
+    nm = scaled(SIZES_MIXED[tier][prop], scale) if SIZES_MIXED[tier][
+        prop] else 0
+    rm = random.Random(core.derive(seed, prop, "mixed-scenarios"))
+    idxs += [ws.MIXED_BASE + i
+             for i in sorted(rm.sample(range(N_MIXED), min(nm, N_MIXED)))]
     for i in dict.fromkeys(idxs):
         u = {"kind": "store", "prop": prop, "idx": i,
              "hash_class": hash_class_of(i),
@@ -316,6 +326,7 @@ def main(prop, argv=None):
                   "same_shape_groups": 0, "differential_worlds": 0,
                   "batch_smaller_than_a_trace": 0,
                   "large_scale_scenarios": 0,
+                  "traces_with_combined_faults": 0,
                   "flush_batch_of_1000_or_more_spans_in_fallback": 0}
         batch_sizes: dict = {}
         states = set()
@@ -330,13 +341,15 @@ def main(prop, argv=None):
                 run.harness_error(f"{prop}:{u['idx']}: {st} "
                                   f"{str(r.get('detail'))[:300]}")
                 continue
-            if u["idx"] >= ws.LARGE_BASE:
+            if ws.LARGE_BASE <= u["idx"] < ws.MIXED_BASE:
                 probes["large_scale_scenarios"] += 1
                 if r.get("batch_size", 0) >= 1000 and r.get(
                         "n_spans", 0) >= 1000 and r.get("probes", {}).get(
                         "fallback"):
                     probes["flush_batch_of_1000_or_more_spans_in_fallback"] \
                         += 1
+            probes["traces_with_combined_faults"] += sum(
+                "+" in k for k in r.get("kinds", []))
             for e in r["errs"].get(prop, []):
                 if e[0] == "harness":
                     run.harness_error(f"{r['id']}: {e[1]}")
